@@ -8,7 +8,7 @@ import cmdfam
 import polfam
 import vlib
 
-FAULTS = ["none", "noargs", "nofile", "unreadable", "badyaml", "wrongtype", "unknownaction", "unknownsyscall", "nosyscalls", "kernelrefuses", "notarget"]
+FAULTS = ["none", "noargs", "nofile", "unreadable", "badyaml", "wrongtype", "unknownaction", "unknownsyscall", "nosyscalls", "kernelrefuses", "seccompdenied", "notarget"]
 # the same fault classes in other places of the file (Sandbox.tla does not distinguish them: they are realisations of "unknownsyscall")
 UNKNOWN_VARIANTS = {
     "in a group whose action is the default action": "seccomp:\n  default_action: allow\n  syscalls:\n  - action: allow\n    names:\n    - tuxcall\n    - verif_no_such_syscall\n  - action: errno\n    names:\n    - security\n",
@@ -98,6 +98,9 @@ def run_sandbox(d, scratch, fault, idx, nnp=True, uid=0, strace=False, policy_te
         target = os.path.join(d, "no-such-target")
     if fault != "noargs":
         args += [target] + (probes or ["184", "185", "183", "181:0:7", "181:0:8"])
+    if fault == "seccompdenied":
+        # the command runs under an enclosing filter that answers seccomp(2) with ENOSYS (harness command underblock)
+        args = [os.path.join(d, "underblock")] + args
     kw = {}
     if uid:
         kw = dict(user=uid, group=uid, extra_groups=[])
@@ -121,7 +124,8 @@ def strace_events(path, target, fault):
     """begin / seccomp / execve / exit events of the sandbox process (the first pid) and its children."""
     ev = [{"ev": "begin", "fault": fault}]
     main = None
-    first_exec = True
+    # the execs that bring the command itself up are not its events: strace -> command, or strace -> underblock -> command
+    skip_execs = 2 if fault == "seccompdenied" else 1
     for line in open(path):
         m = re.match(r"(\d+)\s+(\w+)\((.*)\)\s+=\s+(-?\d+|\?)", line)
         if not m:
@@ -130,8 +134,8 @@ def strace_events(path, target, fault):
         if main is None:
             main = pid
         if call == "execve":
-            if first_exec:
-                first_exec = False   # strace starting the sandbox itself
+            if skip_execs > 0:
+                skip_execs -= 1
                 continue
             ev.append({"ev": "execve", "target": target in args, "ok": ret == "0"})
         elif call == "seccomp":
